@@ -1,5 +1,5 @@
 import os, time
-import eng_linuxparse, eng_snapshots
+import eng_linuxparse, eng_snapshots, eng_x86dump
 PID = "C18"
 LEAN_MODULE = "Hw.Props.C18"
 NS = "Hw.Props.C18."
@@ -13,9 +13,17 @@ C18_strstr_first C18_hugepages_safe C18_fgets_bounds C18_cgname_cpuset_wins C18_
 C18_cgname_terminates C18_cgname_kernel C18_cgname_line_forms C18_cgname_safe C18_mntpnt_standard
 C18_mntpnt_first_match C18_mntpnt_rule C18_mntpnt_buffers C18_admin_path C18_admin_replaces
 C18_allowed_compose
-C18_meminfo_kernel C18_mntpnt_kernel C18_mntpnt_terminates""".split()]
+C18_meminfo_kernel C18_mntpnt_kernel C18_mntpnt_terminates
+C18_x86dump_read_safe C18_x86dump_read_table C18_x86dump_line_buffer C18_x86dump_nr_le_lines C18_x86dump_free_leaks_iff
+C18_x86dump_find_first C18_x86dump_find_stateless C18_x86dump_find_order_indep C18_x86dump_find_rotation
+C18_x86dump_find_order_matters C18_x86dump_summary_iff C18_x86dump_check_iff C18_x86dump_check_nbprocs
+C18_x86dump_check_readdir_order""".split()]
 CHECK_MODULES = ["Hw.Props.C18"]
-TRUSTED = ["(A9) glibc 2.36 getmntent_r (fgets into the 4-page buffer, forgetting the rest of an over-long line through a 1024-byte buffer, "
+TRUSTED = ["(B7) glibc 2.36 sscanf `%x` into an unsigned (white space, sign, `0x`/`0X` consumed even without digits behind it, strtoul "
+           "saturation then truncation to 32 bits), literal `=>` matching and fgets are modelled in Hw/Io/X86Dump.lean (scanX / scanLine; "
+           "differential-tested through the real cpuiddump_read on every run); the dump file does not change between the two passes of "
+           "cpuiddump_read; readdir returns every directory entry once",
+           "(A9) glibc 2.36 getmntent_r (fgets into the 4-page buffer, forgetting the rest of an over-long line through a 1024-byte buffer, "
            "strsep on blanks, decode_name), fgets, strstr, strsep, atoi/strtol, snprintf(\"%s\") truncation are modelled in Hw/Io/LinuxCgroup.lean / LinuxNum.lean "
            "(differential-tested through the real callers on every run); the kernel resolves a path below the fsroot as in a tree of plain directories "
            "(empty and `.` components dropped; inputs containing `..` are answered `fsdep` and not compared); read() delivers these small files in one call",
@@ -25,7 +33,9 @@ TRUSTED = ["(A9) glibc 2.36 getmntent_r (fgets into the 4-page buffer, forgettin
            "PARTIAL: the Linux and x86 back ends themselves are NOT modelled; that every load is clean / well-formed / deterministic / "
            "consistent is checked by the proved oracles (wfCheck, sameCheck, disallowedCheck, xmlCheck) on the loads of the run, sampled "
            "over configurations and fault sequences"]
-ASSUMPTIONS = ["cpulist differential domain: every index reaching the bitmap layer < 2^17 (larger ones are answered `big` by the model and not compared; "
+ASSUMPTIONS = ["x86dump differential domain: pu indexes reaching hwloc_bitmap_set < 2^17 (a directory entry such as `pu-1` makes the real "
+               "code allocate 512 MB; the model answers `big`, the generator stays below); malloc never fails",
+               "cpulist differential domain: every index reaching the bitmap layer < 2^17 (larger ones are answered `big` by the model and not compared; "
                "C03 is stated below 2^31); malloc never fails",
                "signed overflow in hwloc__read_path_as_cpulist (finding C18-F1: a number = 2^31-1 as range end or 2^31 as range start, mod 2^32) is "
                "undefined behaviour: the model says `ub`, the C answer is then not compared",
@@ -35,7 +45,8 @@ ASSUMPTIONS = ["cpulist differential domain: every index reaching the bitmap lay
                "C18-F3 (hwloc_topology_check assertion `!prev_empty' after topology files were removed)"]
 MODELLED = ("modelled literally: hwloc__read_fd, hwloc__read_path_as_cpulist, hwloc__read_path_as_cpumask (topology-linux.c 700-945); "
             "(A9) hwloc_read_path_by_length / _as_int / _as_uint / _as_uint64, hwloc_parse_meminfo_info, hwloc_parse_hugepages_info, "
-            "hwloc_find_linux_cgroup_mntpnt, hwloc_read_linux_cgroup_name, hwloc_admin_disable_set_from_cgroup, hwloc_linux__get_allowed_resources; relations over dumps; "
+            "hwloc_find_linux_cgroup_mntpnt, hwloc_read_linux_cgroup_name, hwloc_admin_disable_set_from_cgroup, hwloc_linux__get_allowed_resources; "
+            "(B7) cpuiddump_read, cpuiddump_find_by_input, cpuiddump_free, hwloc_x86_check_cpuiddump_input (topology-x86.c 54-170, 1796-1860); relations over dumps; "
             "not modelled (exercised by the snapshots engine under ASan/UBSan/LSan with proved oracles): everything else in topology-linux.c, topology-x86.c, "
             "components.c, the core discovery pipeline")
 
@@ -46,16 +57,19 @@ def run_engines(tier, seed):
     t1 = time.time()
     b = eng_snapshots.run_engine(tier, seed)
     t2 = time.time()
-    out = {"evaluations": a["evaluations"] + b["evaluations"],
-           "distinct_nontrivial": a["distinct_nontrivial"] + b["distinct_nontrivial"],
-           "rule": "linuxparse: " + a["rule"] + " || snapshots: " + b["rule"],
-           "samples": (a.get("samples") or [])[:4] + (b.get("samples") or [])[:4],
-           "problems": a["problems"] + b["problems"],
+    x = eng_x86dump.run_engine(tier, seed)
+    t3 = time.time()
+    out = {"evaluations": a["evaluations"] + b["evaluations"] + x["evaluations"],
+           "distinct_nontrivial": a["distinct_nontrivial"] + b["distinct_nontrivial"] + x["distinct_nontrivial"],
+           "rule": "linuxparse: " + a["rule"] + " || snapshots: " + b["rule"] + " || x86dump: " + x["rule"],
+           "samples": (a.get("samples") or [])[:4] + (b.get("samples") or [])[:4] + (x.get("samples") or [])[:3],
+           "problems": a["problems"] + b["problems"] + x["problems"],
            "known_hits": b.get("known_hits", []),
-           "distribution": {"linuxparse": a.get("distribution"), "snapshots": b.get("distribution")},
+           "distribution": {"linuxparse": a.get("distribution"), "snapshots": b.get("distribution"), "x86dump": x.get("distribution")},
+           "x86dump": {k: x.get(k) for k in ("evaluations", "distinct_nontrivial", "benign_repr_diffs", "buckets_hit")},
            "linuxparse": {k: a.get(k) for k in ("evaluations", "distinct_nontrivial", "benign_repr_diffs", "buckets_hit", "corpus_cases")},
            "snapshots": {k: b.get(k) for k in ("evaluations", "cases", "distinct_nontrivial", "sources")},
-           "engine_wall_s": {"linuxparse": round(t1 - t0, 1), "snapshots": round(t2 - t1, 1)}}
+           "engine_wall_s": {"linuxparse": round(t1 - t0, 1), "snapshots": round(t2 - t1, 1), "x86dump": round(t3 - t2, 1)}}
     return out
 
 
